@@ -170,6 +170,11 @@ pub struct PoolCfg {
     /// the service below the pool sends through the dereferenced connection
     #[serde(default)]
     pub deref_send: bool,
+    /// odd-numbered requests carry a Host header supplied by the caller that names *another*
+    /// authority (a virtual host): the origin of a request is the scheme and authority of its
+    /// URI, whatever its headers say
+    #[serde(default)]
+    pub foreign_host_header: bool,
 }
 
 #[derive(Clone, Debug, Serialize, Deserialize)]
@@ -383,6 +388,11 @@ fn gen_cfg(profile: &str, r: &mut Rng) -> PoolCfg {
         let i = r.usize_below(pool.len());
         origins.push(pool.remove(i).to_string());
     }
+    // C15: a third of the runs address one origin under two spellings (host names are
+    // case-insensitive): the limit is per origin, not per spelling
+    if profile == "C15" && Rng::keyed(r.below(1 << 40), "pool/c15-spelling").chance(1, 3) {
+        origins = vec!["http://a.test".to_string(), "http://A.TEST".to_string()];
+    }
     let alpn_h2 = if matches!(profile, "C15") {
         vec![]
     } else {
@@ -429,6 +439,7 @@ fn gen_cfg(profile: &str, r: &mut Rng) -> PoolCfg {
             _ => false,
         },
         deref_send: matches!(profile, "C02" | "C05" | "C15") && r.chance(1, 3),
+        foreign_host_header: matches!(profile, "C06" | "C04" | "C17") && Rng::keyed(r.below(1 << 40), "pool/foreign-host").chance(1, 3),
         keep_finished: match profile {
             "C15" | "C03" => r.chance(1, 3),
             "C14" | "C04" | "C19" => r.chance(1, 4),
@@ -1061,6 +1072,18 @@ impl<'a> Run<'a> {
             .body(SimBody::new())
             .expect("request");
         request.extensions_mut().insert(ReqId(req));
+        if self.case.cfg.foreign_host_header && req % 2 == 1 && !is_probe && !authority_form {
+            // the authority of the next configured origin, or a name nobody serves
+            let n = self.case.cfg.origins.len();
+            let other = self.case.cfg.origins[(origin + 1) % n].parse::<http::Uri>().ok().and_then(|u| u.authority().map(|a| a.as_str().rsplit('@').next().unwrap_or("").to_string()));
+            let value = match other {
+                Some(a) if n > 1 => a,
+                _ => "other.example".to_string(),
+            };
+            if let Ok(v) = http::HeaderValue::from_str(&value) {
+                request.headers_mut().insert(http::header::HOST, v);
+            }
+        }
         let ostr = self.origin_str(origin);
         let now = self.now_ms();
 
@@ -1811,8 +1834,9 @@ impl<'a> Run<'a> {
             for (o, retained) in per_origin {
                 // right after a cancel a connection may be travelling back to the pool inside a
                 // dropped waiter channel (held by a hand-back task that has not run yet)
-                let oi = self.case.cfg.origins.iter().position(|u| u.parse::<http::Uri>().map(|u| origin_of(&u) == o).unwrap_or(false));
-                if oi.map(|i| self.dirty_since_cancel[i]).unwrap_or(false) {
+                // (two configured origins may be spellings of one: any of them dirty counts)
+                let dirty = self.case.cfg.origins.iter().enumerate().any(|(i, u)| u.parse::<http::Uri>().map(|u| origin_of(&u) == o).unwrap_or(false) && self.dirty_since_cancel[i]);
+                if dirty {
                     continue;
                 }
                 let waiting = self
